@@ -10,7 +10,7 @@ const char *behav_name(int b) {
 	static const char *n[] = {"honest", "foreign-id", "stale-gen", "other-hash", "broken-link", "lc-256", "lc-2^32", "low-level",
 		"wrong-agg-time", "wrong-pub-time", "bad-shape", "other-input", "altered-right-link", "status-err", "error-pdu",
 		"bad-mac", "other-key", "other-alg", "other-ver", "no-header", "no-mac", "truncated", "garbage-pdu", "conf-only",
-		"with-conf", "no-cal", "index-gap", "index-short", "index-prefix", "index-shape", "status-with-content", "extra-links", "no-agg-time"};
+		"with-conf", "no-cal", "index-gap", "index-short", "index-prefix", "index-shape", "status-with-content", "extra-links", "no-agg-time", "response-plus-error", "v1-reflected-request"};
 	return (b >= 0 && b < B__COUNT) ? n[b] : "?";
 }
 
@@ -364,6 +364,21 @@ std::string World::make_signature(const std::string &hash, uint64_t level, uint6
 	return sig.enc();
 }
 
+// version 1 only: {the client's header, the client's request, a response payload, the client's MAC}. The MAC covers header and request
+// (it is the client's own), the response payload is covered by nothing.
+static bool v1_reflect(const ReqInfo &rq, const EndpointCfg &ep, const Tlv &resp, std::string &out) {
+	if (ep.pdu_ver != 1 || rq.raw.empty()) return false;
+	Tlv top; size_t used;
+	if (!Tlv::parse1(rq.raw, 0, top, used) || !top.expand()) return false;
+	unsigned base = ep.extender ? 0x300 : 0x200;
+	const Tlv *hdr = top.find(0x01), *req = top.find(base + 1), *mac = top.find(0x1f);
+	if (!hdr || !req || !mac) return false;
+	Tlv pl = resp; pl.tag = base + 2;
+	if (ep.extender) for (auto &k : pl.kids) if (k.tag == 0x12 && !k.nested) k.tag = 0x10;
+	out = Tlv::nest(base, {*hdr, *req, pl, *mac}).enc();
+	return true;
+}
+
 std::string World::aggr_reply(const ReqInfo &rq, const EndpointCfg &ep, int behav, uint64_t subseed, ReplyMeta &meta) {
 	Rng rng(sim::mix(subseed, 0xa66));
 	if (behav == B_EXTRA_LINKS || behav == B_NO_AGG_TIME) behav = B_HONEST; // calendar-chain deviations of the extender
@@ -412,6 +427,15 @@ std::string World::aggr_reply(const ReqInfo &rq, const EndpointCfg &ep, int beha
 	if (with_auth_record && behav != B_NO_CAL) resp.add(auth_record(*this, p, meta.cal_root));
 	std::vector<Tlv> payload{resp};
 	if (behav == B_WITH_CONF) { ConfVals cv; cv.max_level = 19; cv.aggr_period = 400; cv.max_requests = 10; payload.push_back(conf_tlv(0x04, cv, false)); }
+	if (behav == B_RESP_PLUS_ERROR) {
+		if (ep.pdu_ver == 2) payload.push_back(Tlv::nest(0x03, {Tlv::u64(0x04, 0x0101), Tlv::str(0x05, "error next to a response")}));
+		else { behav = B_HONEST; meta.behav = B_HONEST; }
+	}
+	if (behav == B_V1_REFLECT) {
+		std::string spliced;
+		if (v1_reflect(rq, ep, resp, spliced)) { meta.honest = false; return spliced; }
+		behav = B_HONEST; meta.behav = B_HONEST;
+	}
 	std::string out = seal(ep, true, payload, behav, subseed);
 	if (behav == B_TRUNCATED) {
 		// keep the declared length but drop the tail: the next PDU's bytes will be swallowed into this frame
@@ -480,6 +504,15 @@ std::string World::ext_reply(const ReqInfo &rq, const EndpointCfg &ep, int behav
 	meta.agg_time = ct; meta.pub_time = cp; meta.input_hash = cc.input; meta.cal_root = cc.fold();
 	std::vector<Tlv> payload{resp};
 	if (behav == B_WITH_CONF) { ConfVals cv; cv.max_requests = 10; cv.cal_first = 1400000000; cv.cal_last = head(); payload.push_back(conf_tlv(0x04, cv, true)); }
+	if (behav == B_RESP_PLUS_ERROR) {
+		if (ep.pdu_ver == 2) payload.push_back(Tlv::nest(0x03, {Tlv::u64(0x04, 0x0101), Tlv::str(0x05, "error next to a response")}));
+		else { behav = B_HONEST; meta.behav = B_HONEST; }
+	}
+	if (behav == B_V1_REFLECT) {
+		std::string spliced;
+		if (v1_reflect(rq, ep, resp, spliced)) { meta.honest = false; return spliced; }
+		behav = B_HONEST; meta.behav = B_HONEST;
+	}
 	std::string out = seal(ep, true, payload, behav, subseed);
 	if (behav == B_TRUNCATED) out.resize(out.size() - 1 - rng.below(out.size() / 2));
 	meta.honest = (behav == B_HONEST || behav == B_WITH_CONF);
